@@ -122,6 +122,13 @@ DeclaredRoEndsRo    == Done => \A i \in DOMAIN Effective(cfg) :
                                     => ~Writable(st, Effective(cfg)[i].tgt, env)
 WritableIffDecl     == Done => WritableIffDeclared(cfg, st, env)
 MaskedRevealNothing == Done => MasksHold(cfg, st, env)
+\* every mount that is not declared writable rejects modifications -- mask mounts included: a writable
+\* mount is a table entry without MS_RDONLY, or /dev/null itself (declared writable by its entry) put over a masked file
+OnlyDeclaredWritable ==
+  Done => \A j \in DOMAIN st.mt : WritableM(st.mt[j]) =>
+            \/ \E i \in DOMAIN Effective(cfg) : Effective(cfg)[i].tgt = st.mt[j].at /\ ~Effective(cfg)[i].ro
+                                                  /\ (IsBind(Effective(cfg)[i]) => st.mt[j].id = Effective(cfg)[i].src)
+            \/ st.mt[j].id = "devnull" /\ cfg.devnull
 
 \* printed with counterexamples
 Alias == [cfg |-> cfg, env |-> env, pc |-> pc, hm |-> hm, op |-> IF pc <= Len(prog) THEN prog[pc] ELSE "end", st |-> st]
